@@ -81,12 +81,17 @@ class Net:
         self.srng = random.Random(cfg.get("seed", 0) ^ 0x5e1ec7)
         self.p_frag = cfg.get("p_frag", 0.0)            # probability that a recv returns a short fragment
         self.p_partial_send = cfg.get("p_partial_send", 0.0)
+        # transient errors: a recv()/send() of a socket in timeout mode fails with EAGAIN / EINTR, possibly many times in a row
+        # (bursts of up to `retry_burst` consecutive failures of the same call site); only for server-side sockets unless "all"
+        self.p_retry_errno = cfg.get("p_retry_errno", 0.0)
+        self.retry_burst = cfg.get("retry_burst", 3)
+        self.retry_sides = cfg.get("retry_sides", "s")
         self.shuffle_select = cfg.get("shuffle_select", False)
         self.rst_discards_rx = cfg.get("rst_discards_rx", True)
         self.silent_first_epipe = cfg.get("silent_first_epipe", False)
         self.on_connect = None       # callback(conn_idx, client_sock, server_sock)
         self.messages = []           # recorded by MessagePipes
-        self.stats = {"frag": 0, "partial_send": 0, "conn": 0, "refused": 0, "rst": 0}
+        self.stats = {"frag": 0, "partial_send": 0, "conn": 0, "refused": 0, "rst": 0, "retry_errno": 0}
 
     def fd(self):
         self.next_fd += 1
@@ -212,6 +217,7 @@ class SimSocket:
         self.s = net.s
         self._fd = net.fd()
         self._sfd = False         # _fd was handed out by accept() and goes back to the pool on close
+        self._burst = 0           # remaining consecutive transient errors
         self.rx = bytearray()
         self.peer = None
         self.out = None           # Pipe towards the peer
@@ -336,6 +342,7 @@ class SimSocket:
             raise OSError(errno.EBADF, "Bad file descriptor")
         self.s.yield_point("recv")
         self.nrecv += 1
+        self._maybe_transient("recv")
         waitall = bool(flags & rsock.MSG_WAITALL) and self.timeout is None
         if waitall:
             def need():
@@ -379,6 +386,7 @@ class SimSocket:
             raise OSError(errno.EBADF, "Bad file descriptor")
         self.s.yield_point("send")
         self.nsend += 1
+        self._maybe_transient("send")
         p = self.peer
         if p is None:
             raise OSError(errno.ENOTCONN, "Transport endpoint is not connected")
@@ -454,6 +462,23 @@ class SimSocket:
 
     def detach(self):
         return self._fd
+
+    def _maybe_transient(self, what):
+        """EAGAIN / EINTR from a call on a socket in timeout mode (the retry loops of socketutil are written for them)"""
+        n = self.net
+        if not n.p_retry_errno or self.timeout is None or self.listening or (n.retry_sides != "all" and self.side != n.retry_sides):
+            return
+        if self._burst > 0:
+            self._burst -= 1
+        elif n.frng.random() < n.p_retry_errno:
+            self._burst = n.frng.randint(1, max(1, n.retry_burst)) - 1
+        else:
+            return
+        n.stats["retry_errno"] += 1
+        self.s.sev("transient", self.conn, self.side, what)
+        if n.frng.random() < 0.5:
+            raise BlockingIOError(errno.EAGAIN, "Resource temporarily unavailable")
+        raise InterruptedError(errno.EINTR, "Interrupted system call")
 
     def _release_fd(self):
         if self._sfd:
